@@ -53,7 +53,7 @@ def build_coq(targets=None):
 
 # ----------------------------------------------------------------------------- implementation side
 
-def run_impl(cases, tag='impl'):
+def run_impl(cases, tag='impl', threads=1):
     """cases: list of (id, kind '010', dsl text).  Returns list of dicts in the same order."""
     os.makedirs(WORK, exist_ok=True)
     f = os.path.join(WORK, '%s_%d.txt' % (tag, os.getpid()))
@@ -61,7 +61,8 @@ def run_impl(cases, tag='impl'):
         for (i, kind, text) in cases:
             assert '\n' not in text and '\t' not in text
             fh.write('%s\t%s\t%s\n' % (i, kind, text))
-    p = subprocess.run([IMPLRUN, f], stdout=subprocess.PIPE, stderr=subprocess.PIPE, text=True, timeout=1800)
+    p = subprocess.run([IMPLRUN, f], stdout=subprocess.PIPE, stderr=subprocess.PIPE, text=True, timeout=1800,
+                       env=dict(os.environ, IMPLRUN_THREADS=str(threads)))
     os.unlink(f)
     if p.returncode != 0:
         raise RuntimeError('implrun failed: ' + p.stderr[-2000:])
@@ -273,10 +274,10 @@ def coq_eval_strings(defs, expr, header=HEADER):
 
 # ----------------------------------------------------------------------------- correspondence A, G-stage
 
-def corr_A_gen(cases, tag='A'):
+def corr_A_gen(cases, tag='A', threads=1, fix=None):
     """cases: list of (id, kind, text).  Runs the implementation and the model generator on the
     implementation's own parse result.  Returns list of result dicts."""
-    impl = run_impl(cases, tag)
+    impl = run_impl(cases, tag, threads)
     items, idx = [], []
     results = []
     for c, r in zip(cases, impl):
@@ -290,6 +291,9 @@ def corr_A_gen(cases, tag='A'):
             res['status'] = 'parse-' + ('panic' if 'panic' in pr else 'err')
             continue
         d = pr['ok']
+        if fix is not None:
+            pdiffs, d = fix(c[1], c[2], d)
+            res['p_diffs'] = pdiffs
         blocks = []
         for b in d['branches']:
             for m in b['members']:
@@ -305,7 +309,9 @@ def corr_A_gen(cases, tag='A'):
     vals = run_coq_shards(items, tag=tag)
     for res, v in zip(idx, vals):
         res['code'] = v
-        res['status'] = 'ok' if v == 0 else 'diff'
+        res['status'] = 'ok' if (v == 0 and not res.get('p_diffs')) else 'diff'
+        if res.get('p_diffs'):
+            res['status'] += ' parse: ' + '; '.join(res['p_diffs'][:3])
     return results
 
 
